@@ -635,6 +635,156 @@ theorem emitLoop_spec (e : Enc) (he : EncOK e) : ∀ (fuel : Nat) (st : EncSt) (
               · simp [hc]
               · exact q6 hc s hs
 
+/-! ### termination: the fuel `emitFuel` always suffices -/
+
+/-- symbols (+1 per block, for its lazy removal) still in the window -/
+def W : List WBlk → Nat
+  | [] => 0
+  | b :: t => b.rest.length + 1 + W t
+
+theorem W_append (a b : List WBlk) : W (a ++ b) = W a + W b := by
+  induction a with
+  | nil => simp [W]
+  | cons x xs ih => simp [W, ih]; omega
+
+theorem W_set : ∀ (win : List WBlk) (i : Nat) (blk blk' : WBlk), win[i]? = some blk →
+    W (win.set i blk') + blk.rest.length = W win + blk'.rest.length := by
+  intro win
+  induction win with
+  | nil => intro i blk blk' h; simp at h
+  | cons x xs ih =>
+    intro i blk blk' h
+    cases i with
+    | zero =>
+      simp only [List.getElem?_cons_zero, Option.some.injEq] at h
+      subst h
+      simp only [List.set_cons_zero, W]; omega
+    | succ n =>
+      simp only [List.getElem?_cons_succ] at h
+      have := ih n blk blk' h
+      simp only [List.set_cons_succ, W]; omega
+
+theorem W_eraseIdx : ∀ (win : List WBlk) (i : Nat) (blk : WBlk), win[i]? = some blk →
+    W (win.eraseIdx i) + blk.rest.length + 1 = W win := by
+  intro win
+  induction win with
+  | nil => intro i blk h; simp at h
+  | cons x xs ih =>
+    intro i blk h
+    cases i with
+    | zero =>
+      simp only [List.getElem?_cons_zero, Option.some.injEq] at h
+      subst h
+      simp only [List.eraseIdx_cons_zero, W]; omega
+    | succ n =>
+      simp only [List.getElem?_cons_succ] at h
+      have := ih n blk h
+      simp only [List.eraseIdx_cons_succ, W]; omega
+
+theorem fuelOf_mono (e : Enc) : ∀ n m, n ≤ m → fuelOf e n ≤ fuelOf e m := by
+  intro n m h
+  induction m with
+  | zero => have : n = 0 := by omega
+            subst this; exact Nat.le_refl _
+  | succ m ih =>
+    by_cases hn : n = m + 1
+    · subst hn; exact Nat.le_refl _
+    · have := ih (by omega)
+      simp only [fuelOf]; omega
+
+/-- what is left to do: symbols and blocks in the window, shards of the blocks not yet loaded -/
+def mu (e : Enc) (st : EncSt) : Nat := W st.win + (fuelOf e e.ks.size - fuelOf e st.next)
+
+theorem readWindow_mu (e : Enc) (he : EncOK e) : ∀ (fuel : Nat) (st : EncSt), st.next ≤ e.ks.size →
+    mu e (readWindow e fuel st) = mu e st ∧ (readWindow e fuel st).next ≤ e.ks.size := by
+  intro fuel
+  induction fuel with
+  | zero => intro st h; exact ⟨rfl, h⟩
+  | succ n ih =>
+    intro st h
+    unfold readWindow
+    by_cases hstop : (st.readEnd || decide (st.win.length ≥ e.w)) = true
+    · simp only [hstop, ↓reduceIte]; exact ⟨rfl, h⟩
+    · simp only [hstop, Bool.false_eq_true, ↓reduceIte]
+      cases hk : e.ks[st.next]? with
+      | none =>
+        have hne : e.ks.isEmpty = false := by
+          cases hx : e.ks.isEmpty with
+          | false => rfl
+          | true =>
+            have := Array.isEmpty_iff_size_eq_zero.mp hx
+            have := he.nonempty; omega
+        simp only [hne, Bool.and_false, Bool.false_and, Bool.false_eq_true, ↓reduceIte]
+        exact ⟨rfl, h⟩
+      | some k =>
+        obtain ⟨_, hkf⟩ := he.blocks st.next k hk
+        simp only [hkf, Bool.false_eq_true, ↓reduceIte]
+        have hlt : st.next < e.ks.size := (Array.getElem?_eq_some_iff.mp hk).1
+        obtain ⟨i1, i2⟩ := ih { st with win := st.win ++ [{ sbn := st.next, k := k, rest := List.range (shardsOf e.scheme k e.p) }],
+                                  next := st.next + 1, readEnd := st.next + 1 == e.ks.size } (by simp only; omega)
+        refine ⟨?_, i2⟩
+        rw [i1]
+        simp only [mu, W_append, W, List.length_range, fuelOf]
+        have hg : e.ks.getD st.next 0 = k := by simp [Array.getD_eq_getD_getElem?, hk]
+        have hm := fuelOf_mono e (st.next + 1) e.ks.size (by omega)
+        simp only [fuelOf, hg] at hm
+        rw [hg]; omega
+
+/-- **the emission loop terminates**: with more fuel than there is work left it never runs out of fuel -/
+theorem emitLoop_some (e : Enc) (he : EncOK e) (tot : Nat) : ∀ (fuel : Nat) (st : EncSt),
+    st.next ≤ e.ks.size → mu e st < fuel → ∃ T, emitLoop e tot fuel st = some T := by
+  intro fuel
+  induction fuel with
+  | zero => intro st _ h; omega
+  | succ n ih =>
+    intro st hnext hmu
+    unfold emitLoop
+    obtain ⟨m1, m2⟩ := readWindow_mu e he (e.w + 1) st hnext
+    generalize readWindow e (e.w + 1) st = st1 at m1 m2
+    dsimp only
+    by_cases hemp : st1.win.isEmpty = true
+    · simp only [hemp, ↓reduceIte]
+      split <;> exact ⟨_, rfl⟩
+    · simp only [hemp, Bool.false_eq_true, ↓reduceIte]
+      have hlen : 0 < st1.win.length := by
+        rcases hw : st1.win with _ | ⟨a, t⟩
+        · rw [hw] at hemp; simp at hemp
+        · simp
+      generalize hidx : (if st1.idx ≥ st1.win.length then 0 else st1.idx) = idx
+      have hidxlt : idx < st1.win.length := by rw [← hidx]; split <;> omega
+      cases hb : st1.win[idx]? with
+      | none => rw [List.getElem?_eq_none_iff] at hb; omega
+      | some blk =>
+        simp only
+        cases hrest : blk.rest with
+        | nil =>
+          simp only
+          apply ih _ m2
+          have := W_eraseIdx st1.win idx blk hb
+          simp only [mu] at m1 hmu ⊢
+          rw [hrest] at this
+          simp only [List.length_nil, Nat.add_zero] at this
+          omega
+        | cons esi rest =>
+          simp only
+          have : ∃ T, emitLoop e tot n { st1 with win := st1.win.set idx { blk with rest := rest }, idx := idx + 1,
+              srcSent := if esi < blk.k then st1.srcSent + 1 else st1.srcSent, sent := st1.sent + 1 } = some T := by
+            apply ih _ m2
+            have := W_set st1.win idx blk { blk with rest := rest } hb
+            simp only [mu] at m1 hmu ⊢
+            rw [hrest] at this
+            simp only [List.length_cons] at this
+            omega
+          obtain ⟨T, hT⟩ := this
+          exact ⟨_, by rw [hT]; rfl⟩
+
+/-- one transfer is always produced (the model's `hang` outcome never occurs) -/
+theorem emit_terminates (e : Enc) (he : EncOK e) : ∃ T, emitTransfer e = some T := by
+  unfold emitTransfer
+  apply emitLoop_some e he _ _ encInit (by simp [encInit])
+  simp only [mu, encInit, W, fuelOf, emitFuel]
+  omega
+
 theorem SI_init (e : Enc) : SI e encInit := by
   refine ⟨by simp [encInit], by simp [encInit], by simp [encInit], by simp [encInit, R, prefixSrc], ?_, by simp [encInit]⟩
   intro _
